@@ -599,9 +599,21 @@ theorem roundRat_faithful (y : F64) (hs : sign y = false) (hfin : expBits y < 20
 
 example : sign (0x3FB999999999999A : F64) = false ∧ expBits (0x3FB999999999999A : F64) < 2047 := by decide
 
+/-- NEGATIVE VALUES: the sign only sets the top bit (`roundRat true n d = roundRat false n d ||| 2^63`), so the order is
+    mirrored: num1/den1 ≤ num2/den2 ⇒ −num2/den2 rounds to a key ≤ that of −num1/den1; and every negative rounding is
+    ≤ every non-negative one (−0 and +0 share the key 0). Together with `roundRat_mono` this is monotonicity of the
+    rounding over all rationals, in the order `F64.key` that the skiplist uses. -/
+theorem roundRat_mono_neg (num1 den1 num2 den2 : Nat) (hd1 : 0 < den1) (hd2 : 0 < den2) (h : num1 * den2 ≤ num2 * den1) :
+    F64.key (roundRat true num2 den2) ≤ F64.key (roundRat true num1 den1) :=
+  Proofs.FloatDecMono.roundRat_neg_le num1 den1 num2 den2 hd1 hd2 h
+
+theorem roundRat_neg_le_pos (num1 den1 num2 den2 : Nat) (hd1 : 0 < den1) (hd2 : 0 < den2) :
+    F64.key (roundRat true num1 den1) ≤ F64.key (roundRat false num2 den2) :=
+  Proofs.FloatDecMono.roundRat_neg_le_pos num1 den1 num2 den2 hd1 hd2
+
 /- NOT PROVED: that the rounding is to the NEAREST double (only faithful + monotone + exact on representable values; the
-   table ties nearest-even to Go on exact halfway texts); monotonicity for negative text (mirror image: the sign only sets the
-   top bit); 17-digit sufficiency (above); that `formatShortest` is the *shortest* and *closest* round-tripping text. -/
+   table ties nearest-even to Go on exact halfway texts); monotonicity stated on TEXT (it is stated on the value mant × 10^ex
+   that `parseDec` extracts from the text); 17-digit sufficiency (above); that `formatShortest` is the *shortest* and *closest* round-tripping text. -/
 
 end floattext
 
